@@ -143,19 +143,21 @@ HonestCase(l) ==
    seal |-> "ok", layout |-> "pre-seal"]
 
 ----------------------------------------------------------------------------
-(* Theorems of the table, checked by TLC over ALL cases (engine M).        *)
+(* Theorems of the table.  Each is a predicate of one case (or one lottery *)
+(* input); TLC checks it as an invariant of the enumeration below, i.e. on *)
+(* ALL well-formed cases (engine M).                                       *)
 
 (* (S6) every claim of the honest lottery is a well-formed case and passes *)
-OwnClaimsPass ==
-  \A l \in Lots : ClaimKind(l) # "none" => (HonestCase(l) \in AllCases /\ Accept(HonestCase(l)))
+OwnClaimsPass(l) ==
+  ClaimKind(l) # "none" => (HonestCase(l) \in AllCases /\ Accept(HonestCase(l)))
 
 (* (S1, only-if) an accepted block names an in-range authority that had a  *)
 (* right in this slot under this configuration: it won the primary lottery *)
 (* or it is the slot's secondary author and secondary slots of that kind   *)
-(* are enabled; an honest node in that situation would claim the same kind *)
-(* unless it also wins the primary lottery.                                *)
-OnlyAuthorised ==
-  \A c \in AllCases : Accept(c) =>
+(* are enabled; an honest node in that situation (and not winning the      *)
+(* primary lottery) claims exactly that kind.                              *)
+OnlyAuthorised(c) ==
+  Accept(c) =>
      /\ c.idx # "out"
      /\ \/ c.kind = "primary" /\ c.below /\ c.vrf = "ok"
         \/ c.kind # "primary" /\ c.idx = "assigned" /\ c.cfg = c.kind
@@ -165,38 +167,44 @@ OnlyAuthorised ==
 (* (S3) a secondary claim never passes under a configuration that does not *)
 (* allow that kind: primary-only rejects both, plain rejects VRF claims,   *)
 (* VRF rejects plain claims                                                *)
-KindMatchesConfig ==
-  \A c \in AllCases : (Accept(c) /\ c.kind # "primary") => c.cfg = c.kind
+KindMatchesConfig(c) == (Accept(c) /\ c.kind # "primary") => c.cfg = c.kind
 
 (* (S5) no block passes without the claimed authority's own seal over the  *)
 (* sealed header, whatever else is right                                   *)
-NeedsOwnSeal == \A c \in AllCases : Accept(c) => (c.seal = "ok" /\ c.layout \in {"pre-seal", "pre-x-seal"})
+NeedsOwnSeal(c) == Accept(c) => (c.seal = "ok" /\ c.layout \in {"pre-seal", "pre-x-seal"})
 
 (* (S2,S3) where a VRF proof is required, only the claimed authority's own *)
 (* proof over this slot's transcript is good enough                        *)
-NeedsOwnVrf == \A c \in AllCases : (Accept(c) /\ c.kind # "plain") => c.vrf = "ok"
+NeedsOwnVrf(c) == (Accept(c) /\ c.kind # "plain") => c.vrf = "ok"
 
 (* any single tampering of an accepted block that touches the seal, a      *)
-(* required VRF or moves a secondary claim to another authority is         *)
-(* rejected (the attribute is really needed, the table has no "don't       *)
-(* care" that would let a forger through)                                  *)
-TamperRejected ==
-  \A c \in AllCases : Accept(c) =>
+(* required VRF, moves a secondary claim to another authority or lifts a   *)
+(* primary output above the threshold is rejected (every attribute the     *)
+(* statement names is really needed; the table has no "don't care" that    *)
+(* would let a forger through)                                             *)
+TamperRejected(c) ==
+  Accept(c) =>
     /\ \A s \in SealCl \ {"ok"} : ~Accept([c EXCEPT !.seal = s])
     /\ c.kind # "plain" => \A v \in VrfCl \ {"ok"} : ~Accept([c EXCEPT !.vrf = v])
     /\ c.kind # "primary" => ~Accept([c EXCEPT !.idx = "other"])
     /\ c.kind = "primary" => ~Accept([c EXCEPT !.below = FALSE])
+    /\ ~Accept([c EXCEPT !.idx = "out", !.below = FALSE])
 
 (* Reason is consistent with Accept *)
-ReasonConsistent == \A c \in AllCases : (Reason(c) = "authorised") <=> Accept(c)
+ReasonConsistent(c) == (Reason(c) = "authorised") <=> Accept(c)
 
-(* the verdict does not depend on attributes the statement does not        *)
-(* mention for that kind: `below` is irrelevant for secondary VRF claims   *)
-BelowIrrelevantForSecondary ==
-  \A c \in AllCases : c.kind = "vrf" => (Accept(c) <=> Accept([c EXCEPT !.below = ~c.below]))
+(* the verdict does not depend on an attribute the statement does not      *)
+(* mention for that kind: `below` is irrelevant for secondary VRF claims,  *)
+(* and the slot's secondary author plays no role for primary claims        *)
+Irrelevant(c) ==
+  /\ c.kind = "vrf" => (Accept(c) <=> Accept([c EXCEPT !.below = ~c.below]))
+  /\ (c.kind = "primary" /\ c.idx # "out") =>
+        (Accept(c) <=> Accept([c EXCEPT !.idx = IF c.idx = "assigned" THEN "other" ELSE "assigned"]))
+  /\ c.kind = "primary" =>
+        \A g \in Cfgs : Accept(c) <=> Accept([c EXCEPT !.cfg = g])
 
-Theorems == /\ OwnClaimsPass /\ OnlyAuthorised /\ KindMatchesConfig /\ NeedsOwnSeal
-            /\ NeedsOwnVrf /\ TamperRejected /\ ReasonConsistent /\ BelowIrrelevantForSecondary
+CaseTheorems(c) == /\ OnlyAuthorised(c) /\ KindMatchesConfig(c) /\ NeedsOwnSeal(c) /\ NeedsOwnVrf(c)
+                   /\ TamperRejected(c) /\ ReasonConsistent(c) /\ Irrelevant(c)
 
 ----------------------------------------------------------------------------
 (* Case enumeration as a (trivial) state machine: one behaviour = one case *)
@@ -220,14 +228,21 @@ SpecAll == Init /\ [][Next]_vars
 
 TypeOK == done \in BOOLEAN /\ Len(hist) = 1
 
-(* per-state form of the theorems, so that TLC also reports them as        *)
-(* invariants of the enumerated behaviours                                 *)
-StepSound ==
-  LET s == hist[1] IN
-  IF s.o.op = "verify"
-  THEN s.res.accept = Accept([cfg |-> s.o.cfg, kind |-> s.o.kind, idx |-> s.o.idx, vrf |-> s.o.vrf,
-                              below |-> s.o.below, seal |-> s.o.seal, layout |-> s.o.layout])
-  ELSE (s.res.kind # "none") => s.res.accept
+(* the case / lottery input of the current behaviour *)
+CurCase == LET o == hist[1].o IN
+  [cfg |-> o.cfg, kind |-> o.kind, idx |-> o.idx, vrf |-> o.vrf, below |-> o.below, seal |-> o.seal, layout |-> o.layout]
+CurLot == LET o == hist[1].o IN [cfg |-> o.cfg, assigned |-> o.assigned, wins |-> o.wins]
+IsVerify == hist[1].o.op = "verify"
+
+(* invariants handed to TLC (BabeVerify_MC.cfg) *)
+InvOwnClaimsPass     == ~IsVerify => (OwnClaimsPass(CurLot) /\ (hist[1].res.kind # "none" => hist[1].res.accept))
+InvOnlyAuthorised    == IsVerify => OnlyAuthorised(CurCase)
+InvKindMatchesConfig == IsVerify => KindMatchesConfig(CurCase)
+InvNeedsOwnSeal      == IsVerify => NeedsOwnSeal(CurCase)
+InvNeedsOwnVrf       == IsVerify => NeedsOwnVrf(CurCase)
+InvTamperRejected    == IsVerify => TamperRejected(CurCase)
+InvReasonConsistent  == IsVerify => (ReasonConsistent(CurCase) /\ hist[1].res.accept = Accept(CurCase))
+InvIrrelevant        == IsVerify => Irrelevant(CurCase)
 
 Dump == done => PrintT(<<"TRACE", ToJson(hist)>>)
 =============================================================================
